@@ -17,7 +17,7 @@ RULE = (
     "tuples of EXECUTED Gibbs / Metropolis-Hastings updates whose vector was compared with the independent posterior"
 )
 FAULT_KEYS = ["adversarial_choice", "shuffle"]
-PROBE_KEYS = ["gibbs_draws_verified", "sweeps_full", "choice_fidelity_checked", "gibbs_vectors", "mh_pairs", "dup_state_move", "inbred_move", "skewed_freq_move", "exact_premise_checked", "underflow_skip"]
+PROBE_KEYS = ["sweep_kernels_extracted", "gibbs_draws_verified", "sweeps_full", "choice_fidelity_checked", "gibbs_vectors", "mh_pairs", "dup_state_move", "inbred_move", "skewed_freq_move", "exact_premise_checked", "underflow_skip"]
 OPTIONAL_PROBES = {"quick": ("underflow_skip",), "thorough": ("underflow_skip",)}
 COMPONENTS = {
     "real": ["mchap.calling.mcmc.{gibbs_options,mh_options,compound_step,mcmc_sampler,greedy_caller}", "mchap.calling.classes.CallingMCMC.fit",
@@ -45,6 +45,8 @@ def gen_config(rng, tier, index=0):
 def execute(ctx):
     sim = wl_call.CallSim(ctx, ctx.config, checks=("db",))
     sim.check_exact_premise()
+    if ctx.config.get("sweep_kernel"):
+        sim.check_sweep_kernel()
     sim.run()
 
 
